@@ -78,6 +78,13 @@ class JaggedArray:
                 flattenedArray.append(arr)
             elif arr is None:
                 nones.append(i)
+            else:
+                # skipping it would shift every later entry to the wrong object on reading
+                raise TypeError(
+                    "Cannot store the {} entry {} of {} in a jagged array.".format(
+                        type(arr).__name__, i, paramName
+                    )
+                )
 
         self.flattenedArray = np.array(flattenedArray)
         self.offsets = np.array(offsets)
